@@ -22,7 +22,8 @@ RULE = ("histories over {init job, remove job, re-key job (statepoint setter), u
         "histories over a 9-letter alphabet on 2 jobs appended to two start states (empty project / two jobs with a "
         "fresh cache file in a new session) up to length 2 (quick) or 4 (thorough), and seeded random histories of "
         "length <= 40.  After every observed step a fresh Project is observed twice (cache file in place / moved "
-        "away): find_jobs(filter), len, ids by iteration, open_job(id=i).statepoint() for every listed directory; the "
+        "away): find_jobs(filter), len, ids by iteration, open_job(id=i).statepoint() for every listed directory, and "
+        "open_job(id=p) + statepoint() for 9 abbreviated ids p (too short, shared by 3 / 2 universe ids, unique, no match); the "
         "decoded cache file and the value of update_cache() are recorded.  non-trivial: the history changes the "
         "workspace after a cache file exists and calls update_cache or restarts afterwards; distinct by history")
 TRUSTED = [
@@ -35,7 +36,10 @@ ASSUMPTIONS = ["single process; the cache file is either absent or a gzip JSON o
                "MD5 collision freedom among the state points involved (hypothesis NoColl of cache_transparent)"]
 EXHAUSTIVE = {"quick": False, "thorough": True}
 
-UNIV = [{"a": 0}, {"a": 1}, {"b": {"c": 2}, "a": 0}, {"a": 1, "b": [1, 2]}]
+# ids 7f9f..., 7f8b..., 706d..., b1b4...: u0/u1 share two hex characters, u2 shares one with them
+UNIV = [{"a": 0, "b": 0}, {"a": 1, "b": 123}, {"b": {"c": 2}, "a": 0}, {"a": 1, "b": [1, 1]}]
+# abbreviated ids opened in every observation: too short (""), shared by 3 / 2 ids, unique ones, no match
+ABBREVS = ["", "7", "7f", "7f9", "7f8", "70", "b", "b1b", "e"]
 _HEX = re.compile(r"^[0-9a-f]{32}")
 SPF = "signac_statepoint.json"
 CACHE = os.path.join(".signac", "statepoint_cache.json.gz")
@@ -64,6 +68,11 @@ DIRECTED = [
     [["init", 1], ["misname", 1, 0], ["update"], ["misname", 0, 1], ["init", 0], ["update"], ["restart"], ["query"]],
     [["init", 1], ["update"], ["restart"], ["misname", 1, 0], ["update"], ["query"], ["misname", 0, 1], ["init", 0], ["update"], ["query"]],
     [["init", 3], ["init", 2], ["misname", 3, 1], ["query"], ["update"], ["misname", 1, 3], ["init", 1], ["query"], ["update"], ["restart"], ["query"]],
+    # abbreviated ids against a stale cache (seeded change C08-2): a cached-but-removed id shares the prefix of an
+    # existing job; an existing cached id shares it with a job added later; the same through the live session
+    [["init", 0], ["init", 3], ["update"], ["restart"], ["remove", 0], ["init", 1], ["restart"], ["query"], ["update"], ["query"]],
+    [["init", 0], ["update"], ["restart"], ["init", 1], ["init", 2], ["restart"], ["query"], ["remove", 0], ["query"]],
+    [["init", 0], ["init", 1], ["query"], ["remove", 0], ["query"], ["init", 2], ["query"], ["remove", 1], ["query"]],
     # stale in-memory entries
     [["init", 0], ["init", 1], ["query"], ["remove", 0], ["query"], ["rekey", 1, 2], ["query"], ["update"], ["update"], ["restart"], ["query"]],
     [["init", 0], ["rekey", 0, 0], ["rekey", 0, 1], ["rekey", 1, 1], ["rekey", 2, 3], ["update"], ["restart"], ["rekey", 1, 0], ["init", 1], ["rekey", 0, 1], ["update"], ["update"]],
@@ -138,7 +147,15 @@ def observe(q, root, flt):
     ids = sorted(j.id for j in q)
     dirs = sorted(d for d in os.listdir(ws) if _HEX.match(d))
     opens = [[i, _res(lambda i=i: typed(to_plain(q.open_job(id=i).statepoint())))] for i in dirs]
-    return {"find": find, "len": n, "ids": ids, "open": opens}
+    pres = []
+    for p in ABBREVS:
+        try:
+            j = q.open_job(id=p)
+        except Exception as e:  # noqa: BLE001
+            pres.append([p, ["exn", exn_name(e)]])
+            continue
+        pres.append([p, ["ok", j.id, _res(lambda j=j: typed(to_plain(j.statepoint())))]])
+    return {"find": find, "len": n, "ids": ids, "open": opens, "pre": pres}
 
 
 def read_cache_file(root):
@@ -249,7 +266,10 @@ class Emit:
 
     def obs(self, o):
         opens = coq_list([f"({self.id(i)}, {self.res_json(r)})" for i, r in o["open"]], "(str * result json)")
-        return f"(mkObs {self.res_ids(o['find'])} {o['len']}%N {self.ids(o['ids'])} {opens})"
+        pres = coq_list([f"({coq_str(p)}, " + (f"(Err {r[1]})" if r[0] == "exn" else
+                                               f"(Ok ({self.id(r[1])}, {self.res_json(r[2])}))") + ")"
+                         for p, r in o["pre"]], "(str * result (str * result json))")
+        return f"(mkX (mkObs {self.res_ids(o['find'])} {o['len']}%N {self.ids(o['ids'])} {opens}) {pres})"
 
     def cache(self, c):
         if c is None:
@@ -295,9 +315,10 @@ def run_case(desc):
     E = Emit()
     prelude = [(f"u8_{n}", f"Definition u8_{n} : json := {coq_json(u)}.") for n, u in enumerate(UNIV)]
     prelude.append(("univ8", "Definition univ8 : list json := [u8_0; u8_1; u8_2; u8_3]."))
+    prelude.append(("pres8", "Definition pres8 : list str := %s." % coq_list([coq_str(p) for p in ABBREVS], "str")))
     body = coq_list([E.step(s) for s in steps], "hstep")
     flt = desc["filter"]
-    coq = ("{| c8_ftab := []; c8_univ := univ8; c8_key := %s; c8_val := %s; c8_steps := %s |}"
+    coq = ("{| c8_ftab := []; c8_univ := univ8; c8_key := %s; c8_val := %s; c8_pres := pres8; c8_steps := %s |}"
            % (coq_str(flt[0]), coq_json(flt[1]), body))
     prelude += list(E.prelude.items())
     allops = list(desc.get("pre", [])) + list(desc["steps"])
